@@ -210,6 +210,46 @@ TU = 'src/program/solver.cpp'
 FLT = 'solver_t::'      # one clang dump of solver.cpp serves every member function of solver_t and solver_t::program_t
 
 
+# ------------------------------------------------------------------------------------------------- dispatch (specs/C04/dispatch.h)
+DH = 'specs/C04/dispatch.h'
+DTYPES = [(r'^nano::program::linear_program_t$', 'struct nv_lprog'), (r'^nano::program::quadratic_program_t$', 'struct nv_qprog'),
+          (r'^nano::program::(equality|inequality|constraint)_t<', 'struct nv_constr'), (r'^std::optional<', 'struct nv_optvec')] + TYPES
+DCALLS = [(r'^ctor\|nano::program::solver_t::program_t\|void \(const (nano::program::)?linear_program_t &\)', 'program_from_lp_value({&0})'),
+          (r'^ctor\|nano::program::solver_t::program_t\|void \(const (nano::program::)?quadratic_program_t &\)', 'program_from_qp_value({&0})'),
+          # the six-argument constructor (by value: Q, c, A, b, G, h), also as the target of the delegating constructors
+          (r'^ctor\|nano::program::solver_t::program_t\|void \((nano::)?matrix_t, ', 'program_ctor({self}, {0}, {1}, {2}, {3}, {4}, {5})'),
+          (r'^ctor\|nano::tensor_t<nano::tensor_vector_storage_t, double, 2>\|void \(\)', 'nv_e_nomatrix()'),          # matrix_t{}
+          (r'^make_x0\|.*linear_program_t', 'make_x0_lp'), (r'^make_x0\|.*quadratic_program_t', 'make_x0_qp')] + CALLS
+DMEMBERS = [(r'^valid\|', 'constraint_valid'),
+            (r'^solve_without_inequality\|', 'nv_d_swo({self}, {&0}, {&1})'), (r'^solve_with_inequality\|', 'nv_d_swi({self}, {&0}, {&1}, {&2})'),
+            (r'^make_strictly_feasible\|', 'nv_make_strictly_feasible()'),
+            (r'^operator bool\|(const )?std::optional', 'nv_opt_has'), (r'^has_value\|(const )?std::optional', 'nv_opt_has'),
+            (r'^value\|(const )?std::optional', '{obj}.v')] + MEMBERS
+DCOMMON = dict(types=DTYPES, calls=DCALLS, members=DMEMBERS, hooks=HOOKS)
+
+
+def dispatch_targets():
+    kind = {'lp': 'linear_program_t', 'qp': 'quadratic_program_t'}
+    pt = astload.param_types
+    inst = lambda d: any(x.get('kind') == 'CXXThisExpr' and 'tensor_t<' in x.get('type', {}).get('qualType', '') for x in astload.walk(d))
+    # the member of the INSTANTIATED constraint_t<matrix_t, vector_t> (the dump also holds the template's own, type-dependent body)
+    valid = lambda: Fn('constraint_valid', TU, 'valid', flt='constraint_t', select=inst, self_struct='struct nv_constr', **DCOMMON)
+    pctor = lambda: Fn('program_ctor', TU, 'program_t', flt=FLT, select=lambda d: len(pt(d)) == 6, kinds=('CXXConstructorDecl',),
+                       self_struct='struct nv_program', **COMMON)
+    pfrom = lambda k: Fn(f'program_from_{k}', TU, 'program_t', flt=FLT, select=lambda d: len(pt(d)) == 1 and kind[k] in pt(d)[0],
+                         kinds=('CXXConstructorDecl',), self_struct='struct nv_program', **DCOMMON)
+    mx0 = lambda k: Fn(f'make_x0_{k}', TU, 'make_x0', flt='make_x0', select=lambda d: kind[k] in (astload.template_args(d) or [''])[0], **DCOMMON)
+    solve = lambda k, n: Fn(f'solve_{k}' + ('_x0' if n == 3 else ''), TU, 'solve', flt=FLT, select=lambda d: len(pt(d)) == n and kind[k] in pt(d)[0],
+                            self_struct='struct nv_solver', **DCOMMON)
+    out = [Target('constraint_valid', [valid()], DH)]
+    for k in ('lp', 'qp'):
+        out.append(Target(f'program_from_{k}', [pfrom(k), pctor()], DH, replace=['program_ctor']))
+        out.append(Target(f'make_x0_{k}', [mx0(k)], DH))
+        for n in (2, 3):
+            out.append(Target(f'solve_{k}' + ('_x0' if n == 3 else ''), [solve(k, n), pfrom(k), pctor(), mx0(k), valid()], DH, replace=['program_ctor']))
+    return out
+
+
 def smax_real_vcs():
     """::make_smax over the reals (back end B): for u > 0 componentwise the result lies in (0, 1] and keeps u + s * du >= 0 at every
     (ghost) index; every coefficient read is in bounds; the loop terminates.  IEEE double is treated as a real here."""
@@ -290,7 +330,7 @@ def build(tier):
         Target('solve_with_inequality_adv', [swi('solve_with_inequality_adv'), done_abs(), ctor()], H),
         Target('solve_with_inequality_res', [swi('solve_with_inequality_res'), done_abs(), ctor()], H),
         Target('solve_without_inequality', [swo(), ctor()], H),
-    ]
+    ] + dispatch_targets()
     import realvcs
     bounded, finfo = realvcs.build(tier)
     return {
